@@ -3,7 +3,7 @@ CONSTANTS
   Deviations <- RealDevs
   Apis <- AllApis
   MaxSparse = 3
-  MaxDense = 3
+  MaxDense = 2
 INVARIANT DesignOK
 INVARIANT ReturnContract
 INVARIANT DeviationsExplain
